@@ -6,4 +6,6 @@ func checkC10(c *Check) {
 	c.checkOwnership("C10.1 ownership")
 	c.checkSpawnJoin("C10.4 spawn-join")
 	c.readerHandoff()
+	c.blockingInventory("C10.2 interruptible-waits")
+	c.dialSingleResult("C10.2 dial-result")
 }
